@@ -16,6 +16,12 @@ Streams (all deterministic; the seeded part only samples long digit strings):
   bounds   parse_region against dict / pandas.Series / None chromsizes, string and tuple regions
   uri      every string of <= 6 characters over "a:/." plus f::g / f::/g pairs
   glue     Cooler.extent / bins().fetch / matrix().fetch on one small cooler
+  forms    argument forms: region as str / tuple / list / numpy ints / object array with None in either place, wrong arity;
+           chromsizes as dict / OrderedDict / Series of int64, int32, uint64, int16, float64, object / None; names that look
+           like numbers or units, contain '-' or ':' (tuple only), Latin-1 and non-Latin names; non-str URI arguments
+  glue-forms  the same region forms through every caller of parse_region (Cooler.extent / offset / bins / pixels / matrix with
+           one and two regions, GenomeSegmentation.fetch, util.bedslice) incl. empty ranges at 0, inside and at the length and
+           an open end starting at the length; URI spellings through create_cooler / Cooler / is_cooler / list_coolers
 
 Property oracle (never calls the code under test for the expected value): the value a
 well-formed numeral denotes is computed with fractions.Fraction; refusal classes are decided by
@@ -35,6 +41,7 @@ PROP = "C19"
 RULE = ("exhaustive: all strings of <=5 chars over '12,.k- x' and <=4 over '1-\\n \\tbKm:' after 'c:', all whole strings of <=5 (quick) / 6 "
         "(thorough) chars over 'c :1-'; all numerals a.fff (a<30) x {k,M,G} (the 90 000 of defect D6) and all a.f, a.ff x every accepted unit "
         "spelling; names x start x end spelling products; exhaustive bounds grids for parse_region; all URI strings of <=6 chars over 'a:/.'; "
+        "argument-form grids (region sequence/integer types x chromsizes containers/dtypes x boundary coordinates) through parse_region and all its callers; "
         "non-trivial = the string has a coordinate part / a '::' / a unit or separator (i.e. leaves the default branch); distinct by input text")
 TRUSTED = ["Python `re` semantics (ordered alternation, greedy quantifiers, backtracking of \\s* before .+, '.' excluding only \\n, "
            "finditer skipping unmatched positions) are modelled by the hand tokenizer; the exhaustive small-alphabet runs are what tie them",
@@ -713,7 +720,7 @@ GLUE_CS = [("chr1", 50), ("chr-2.x", 33), ("a b", 20), ("7", 10)]
 GLUE_BIN = 10
 
 
-def make_cooler(ctx):
+def make_cooler(ctx, fname="glue.cool"):
     import cooler
     import numpy as np
     import pandas as pd
@@ -722,7 +729,7 @@ def make_cooler(ctx):
     n = len(bins)
     rows, cols = np.triu_indices(n)
     pix = pd.DataFrame({"bin1_id": rows, "bin2_id": cols, "count": (rows * 31 + cols * 7) % 11 + 1})
-    path = str(ctx.tmp / "glue.cool")
+    path = str(ctx.tmp / fname)
     cooler.create_cooler(path, bins, pix)
     return path, bins
 
@@ -839,13 +846,322 @@ def stream_glue(ctx, thorough):
     return tally.n + t3.n + 1
 
 
+# ------------------------------------------------------------------ argument forms
+FORMS_CS = {"a": 3, "b b": 5, "10": 7, "a-b": 4, "1k": 6, "a:b": 5, "chr\xe9": 2}
+FORMS_CS_UNI = {"染色1": 4, "chrΔ": 3}            # names outside Latin-1: oracle only
+
+
+def as_intval(x):
+    """coordinate returned by the implementation -> python int by VALUE (numpy ints, integral floats), else repr"""
+    import numpy as np
+    if isinstance(x, (bool, np.bool_)):
+        return repr(x)
+    if hasattr(x, "__index__"):
+        return int(x)
+    if isinstance(x, (float, np.floating)) and float(x).is_integer():
+        return int(x)
+    return repr(x)
+
+
+def norm_triple(r):
+    if r[0] != "ok":
+        return r
+    v = r[1]
+    if not (isinstance(v, tuple) and len(v) == 3 and isinstance(v[0], str)):
+        return ("ok", repr(v))
+    return ("ok", (v[0], as_intval(v[1]), as_intval(v[2])))
+
+
+def expected_tuple_region(nm, s, e, cs):
+    """independent reading for a (name, start|None, end|None) region: defaults 0 / length, accepted iff
+    the name is known and 0 <= start <= end <= length"""
+    s2 = 0 if s is None else s
+    if cs is None:
+        return ("ok", (nm, s2, e)) if (e is not None and 0 <= s2 <= e) else ("ValueError",)
+    if nm not in cs:
+        return ("ValueError",)
+    e2 = cs[nm] if e is None else e
+    return ("ok", (nm, s2, e2)) if 0 <= s2 <= e2 <= cs[nm] else ("ValueError",)
+
+
+def containers(cs):
+    """the same chromsizes in every container/dtype a caller may hand over"""
+    import collections
+    import numpy as np
+    import pandas as pd
+    out = [("dict", dict(cs)), ("OrderedDict", collections.OrderedDict(cs))]
+    for dt in ("int64", "int32", "uint64", "int16", "float64", "object"):
+        out.append((f"Series[{dt}]", pd.Series(cs, dtype=dt)))
+    out.append(("Series[np-index]", pd.Series(list(cs.values()), index=np.array(list(cs.keys()), dtype=object))))
+    return out
+
+
+def region_variants(nm, s, e):
+    """one (name, start, end) region in every sequence / integer type a caller may use"""
+    import numpy as np
+    out = [("tuple", (nm, s, e)), ("list", [nm, s, e])]
+    conv = lambda f: tuple(x if x is None else f(x) for x in (s, e))
+    if not any(x is not None and x < 0 for x in (s, e)):
+        out.append(("uint64", (nm, *conv(np.uint64))))
+    out.append(("int64", (nm, *conv(np.int64))))
+    out.append(("int32", (nm, *conv(np.int32))))
+    arr = np.empty(3, dtype=object)
+    arr[0], arr[1], arr[2] = nm, s, e
+    out.append(("object-array", arr))
+    return out
+
+
+def stream_forms(ctx, thorough):
+    """argument forms of parse_region / parse_cooler_uri and of their callers that the grammar streams do not vary"""
+    import numpy as np
+    import pandas as pd
+    from cooler.util import parse_cooler_uri, parse_region
+    tally = Tally(ctx, "forms")
+    cs = FORMS_CS
+    # ---- 1. string regions x every chromsizes container (model + oracle)
+    regs = ["a", "a:", "a:0-0", "a:1-1", "a:3-3", "a:4-4", "a:0-3", "a:0-4", "a:3-", "a:4-", "a:0-", "a:2-1", "a:-3", " a : 0 - 3 ", "a:0-3 ", "A:0-3",
+            "10", "10:0-7", "10:7-7", "10:7-", "10:0-8", "10:8-", "010:0-7", "1k", "1k:0-6", "1k:0-0.006k", "1k:1k-2k", "1000",
+            "a-b", "a-b:1-2", "a-b:0-4", "a-b:4-", "a-b:5-", "a", "a:b", "a:b:0-3", "a:b:0-5", "b b", "b b:5-", "b b:6-", "b b:0-5", "b  b:0-5",
+            "chr\xe9", "chr\xe9:0-2", "chr\xe9:0-3", "chr\xc9:0-2", "", " ", ":0-3"]
+    model = eval_map(ctx, f"out_triple (parse_region s {cs_term(cs)})", regs, "forms", per=100)
+    conts = containers(cs)
+    for r, mv in zip(regs, model):
+        exp = expected_parse_region(r, cs)
+        for how, arg in conts:
+            impl = norm_triple(guarded(parse_region, r, arg))
+            case = {"fn": "parse_region", "s": r, "chromsizes": cs, "container": how}
+            tally.add(f"{r}|{how}", True)
+            ctx.compare("parse_region", case, jsonable(impl), jsonable(m_triple(mv)))
+            if not oracle_parse_region(r, cs, impl):
+                ctx.fail(case, {"got": jsonable(impl), "expected": jsonable(exp)}, None)
+    # names outside Latin-1 (oracle only)
+    for r, ok in [("染色1", ("染色1", 0, 4)), ("染色1:1-4", ("染色1", 1, 4)), ("染色1:1-5", None), ("染色2:1-2", None),
+                  ("chrΔ:0-3", ("chrΔ", 0, 3)), ("chrδ:0-3", None), ("chrΔ:3-", ("chrΔ", 3, 3)), ("chrΔ:4-", None)]:
+        for how, arg in containers(FORMS_CS_UNI)[:3]:
+            impl = norm_triple(guarded(parse_region, r, arg))
+            case = {"fn": "parse_region", "s": r, "chromsizes": FORMS_CS_UNI, "container": how}
+            tally.add(f"{r}|{how}", True)
+            if not oracle_parse_region(r, FORMS_CS_UNI, impl) or impl != (("ok", ok) if ok else ("ValueError",)):
+                ctx.fail(case, {"got": jsonable(impl), "expected": jsonable(ok)}, None)
+    # ---- 2. (name, start, end) regions in every sequence / integer type x containers (model + oracle)
+    tcases = []
+    for nm in ("a", "10", "a:b", "zz"):
+        L = cs.get(nm, 3)
+        for s in (None, 0, 1, L, L + 1, -1):
+            for e in (None, 0, 1, L, L + 1):
+                tcases.append((nm, s, e))
+    texprs = [f"(out_triple (parse_region_tuple ({lit(nm)}, {C.opt(s, C.z)}, {C.opt(e, C.z)}) {cs_term(cs)}), "
+              f"out_triple (parse_region_tuple ({lit(nm)}, {C.opt(s, C.z)}, {C.opt(e, C.z)}) None))" for nm, s, e in tcases]
+    tmodel = eval_exprs(ctx, texprs, "forms_t")
+    for (nm, s, e), (mv_cs, mv_none) in zip(tcases, tmodel):
+        for vhow, _ in region_variants(nm, s, e):
+            for chow, mv in [(c, mv_cs) for c in FORMS_TUPLE_CONTAINERS] + [("None", mv_none)]:
+                case = {"fn": "parse_region(tuple)", "region": [nm, s, e], "chromsizes": None if chow == "None" else cs,
+                        "region_type": vhow, "container": chow}
+                impl, exp = tuple_case_run(case)
+                tally.add(f"{nm}|{s}|{e}|{vhow}|{chow}", True)
+                ctx.compare("parse_region(tuple)", case, jsonable(impl), jsonable(m_triple(mv)))
+                if impl != exp:
+                    ctx.fail(case, {"got": jsonable(impl), "expected": jsonable(exp)}, None)
+    # wrong arity is refused (never silently truncated)
+    for bad in [("a",), ("a", 0), ("a", 0, 3, 4), ()]:
+        case = {"fn": "parse_region(arity)", "region": list(bad)}
+        tally.add(str(bad), True)
+        if not arity_case_ok(case):
+            ctx.fail(case, {"expected": "refused"}, None)
+    # ---- 3. URI argument forms: non-str objects must not yield a wrong pair
+    for k in range(len(nonstr_uris())):
+        case = {"fn": "parse_cooler_uri(non-str)", "k": k, "repr": repr(nonstr_uris()[k][0])}
+        tally.add(case["repr"], True)
+        if not nonstr_uri_case_ok(case):
+            ctx.fail(case, {"expected": "TypeError/AttributeError or the pair of the text form"}, None)
+    tally.flush()
+    return tally.n
+
+
+FORMS_TUPLE_CONTAINERS = ["dict", "Series[int32]", "Series[uint64]", "Series[float64]"]
+
+
+def tuple_case_run(case):
+    """(implementation result, expected) for a recorded (name, start, end) region case"""
+    from cooler.util import parse_region
+    nm, s, e = case["region"]
+    cs = case["chromsizes"]
+    reg = dict(region_variants(nm, s, e)).get(case.get("region_type", "tuple"), (nm, s, e))
+    arg = None if cs is None else dict(containers(cs)).get(case.get("container", "dict"), cs)
+    return norm_triple(guarded(parse_region, reg, arg)), expected_tuple_region(nm, s, e, cs)
+
+
+def arity_case_ok(case):
+    from cooler.util import parse_region
+    return guarded(parse_region, tuple(case["region"]), FORMS_CS)[0] != "ok"
+
+
+def nonstr_uris():
+    import pathlib
+    return [(b"a.cool::g", "a.cool::g"), (pathlib.Path("a.cool"), "a.cool"), (pathlib.PurePosixPath("d/a.cool::g"), "d/a.cool::g"),
+            (None, None), (5, None), (["a::b"], None), (("a", "b"), None)]
+
+
+def nonstr_uri_case_ok(case):
+    from cooler.util import parse_cooler_uri
+    u, text = nonstr_uris()[case["k"]]
+    impl = guarded(parse_cooler_uri, u)
+    return impl in (("TypeError",), ("AttributeError",), ("ValueError",)) or (text is not None and impl == expected_uri(text))
+
+
+TWO_REGION_CASES = [(("chr1", 10, 30), "a b:5-20", (2, 2)), ("chr1:0.01k-0.03k", ("a b", 5, None), (2, 2)), (["7", None, None], ("chr-2.x", 3, 33), (1, 4))]
+URI_OPEN_CASES = [("", "/"), ("::", "/"), ("::/", "/"), ("::grp/x", "/grp/x"), ("::/grp/x", "/grp/x"),
+                  ("::grp::x", None), ("::/grp/x::", None), ("::::", None)]
+
+
+class CallersEnv:
+    """the scratch cooler and the other callers of parse_region, built once per run / replay"""
+
+    def __init__(self, ctx):
+        import cooler
+        import pandas as pd
+        from cooler.util import GenomeSegmentation
+        self.cs = dict(GLUE_CS)
+        self.setup = guarded(lambda: (lambda pb: (cooler.Cooler(pb[0]), pb[1]))(make_cooler(ctx, "glue_forms.cool")), limit=60)
+        if self.setup[0] == "ok":
+            self.clr, self.bins = self.setup[1]
+            self.seg = guarded(lambda: GenomeSegmentation(pd.Series(self.cs, dtype="int64"), self.bins), limit=60)
+            self.grouped = self.bins.groupby("chrom", observed=True, sort=False)
+
+    @staticmethod
+    def rows_of(df):
+        return [(str(c), int(s), int(e)) for c, s, e in zip(df["chrom"].astype(str), df["start"], df["end"])]
+
+    def observe(self, reg):
+        import pandas as pd
+        from cooler.util import bedslice
+        clr, rows_of = self.clr, self.rows_of
+        ext = guarded(clr.extent, reg)
+        off = guarded(clr.offset, reg)
+        bf = guarded(lambda r: rows_of(clr.bins().fetch(r)), reg)
+        pf = guarded(lambda r: sorted(set(int(x) for x in clr.pixels().fetch(r)["bin1_id"])), reg)
+        mf = guarded(lambda r: tuple(int(x) for x in clr.matrix(balance=False).fetch(r).shape), reg)
+        sg = guarded(lambda r: rows_of(self.seg[1].fetch(r)), reg) if self.seg[0] == "ok" else ("setup-" + self.seg[0],)
+        bs = guarded(lambda r: rows_of(bedslice(self.grouped, pd.Series(self.cs, dtype="int64"), r)), reg)
+        return {"extent": ext if ext[0] != "ok" else ("ok", tuple(int(x) for x in ext[1])),
+                "offset": off if off[0] != "ok" else ("ok", int(off[1])), "bins": bf, "pixels.bin1": pf, "matrix.shape": mf,
+                "segmentation": sg, "bedslice": bs}
+
+    def verdict(self, reg, trip):
+        """None when every caller treats the region as the property says, else a detail dict"""
+        nm, s, e = trip
+        got = self.observe(reg)
+        exp = expected_tuple_region(nm, s, e, self.cs) if isinstance(nm, str) else ("ValueError",)
+        if exp[0] != "ok":
+            bad = {k: jsonable(v) for k, v in got.items() if v[0] == "ok"}
+            return {"accepted_by": bad, "expected": "refused by every caller"} if bad else None
+        _, s2, e2 = exp[1]
+        if s2 < e2:
+            lohi, rows, shape = glue_expected((nm, s2, e2))
+            want = {"extent": ("ok", lohi), "offset": ("ok", lohi[0]), "bins": ("ok", rows), "pixels.bin1": ("ok", list(range(lohi[0], lohi[1]))),
+                    "matrix.shape": ("ok", shape), "segmentation": ("ok", rows), "bedslice": ("ok", rows)}
+            diff = {k: [jsonable(got[k]), jsonable(want[k])] for k in want if got[k] != want[k]}
+            return {"got_vs_expected": diff} if diff else None
+        refused = {k: jsonable(v) for k, v in got.items() if v[0] != "ok"}
+        if refused:                      # an empty range inside the chromosome is a legal region for every caller
+            return {"refused_by": refused, "expected": "accepted (empty range)"}
+        if got["matrix.shape"][1][0] > 1 or len(got["bins"][1]) > 1:
+            return {"got": {k: jsonable(v) for k, v in got.items()}, "expected": "at most one bin for an empty range"}
+        return None
+
+    def two_region_ok(self, k):
+        r1, r2, shape = TWO_REGION_CASES[k]
+        return guarded(lambda: tuple(int(x) for x in self.clr.matrix(balance=False).fetch(r1, r2).shape)) == ("ok", shape)
+
+
+def region_from_case(case):
+    nm, s, e = case["region"]
+    if case.get("text") is not None:
+        return case["text"]
+    return dict(region_variants(nm, s, e)).get(case.get("region_type", "tuple"), (nm, s, e))
+
+
+class UriEnv:
+    def __init__(self, ctx, bins):
+        import cooler
+        import numpy as np
+        self.path = str(ctx.tmp / "glue_uri.cool")
+        pix = {"bin1_id": np.array([0, 1]), "bin2_id": np.array([1, 2]), "count": np.array([3, 4])}
+        self.setup = guarded(lambda: (cooler.create_cooler(self.path, bins, pix),
+                                      cooler.create_cooler(self.path + "::grp/x", bins, pix, mode="a")), limit=60)
+
+    def open_ok(self, k):
+        import cooler
+        from cooler import fileops
+        suffix, root = URI_OPEN_CASES[k]
+        uri, path = self.path + suffix, self.path
+        if root is None:
+            return guarded(lambda u: cooler.Cooler(u).root, uri) == ("ValueError",)
+        got = guarded(lambda u: (lambda c: (c.root, c.filename == path, int(c.info["nnz"]), c.uri == path + "::" + root))(cooler.Cooler(u)), uri)
+        return got == ("ok", (root, True, 2, True)) and guarded(fileops.is_cooler, uri) == ("ok", True)
+
+    def listing_ok(self):
+        from cooler import fileops
+        return guarded(lambda: sorted(fileops.list_coolers(self.path))) == ("ok", ["/", "/grp/x"])
+
+
+def stream_glue_forms(ctx, thorough):
+    """region argument forms through the callers: Cooler.extent/offset/bins/pixels/matrix, GenomeSegmentation.fetch,
+    util.bedslice; URI spellings through create_cooler / Cooler / fileops"""
+    tally = Tally(ctx, "glue-forms")
+    env = CallersEnv(ctx)
+    if env.setup[0] != "ok":
+        ctx.broke(f"glue-forms stream: creating/opening the scratch cooler failed with {env.setup[0]}")
+        return 0
+    cases = []   # (region_type, (name, s, e), text)
+    for nm, L in GLUE_CS:
+        for s, e in [(None, None), (0, None), (None, L), (0, L), (3, None), (None, 7), (5, 15 if L >= 15 else L), (L, None), (L, L), (0, 0), (4, 4),
+                     (L + 1, None), (0, L + 1), (7, 3), (-1, 5)]:
+            for how, _ in region_variants(nm, s, e)[: (6 if thorough else 3)]:
+                cases.append((how, (nm, s, e), None))
+    for nm in ("chrZ", "CHR1", "chr1 x", ""):
+        cases.append(("tuple", (nm, 0, 5), None))
+    # the same regions written as strings in unusual but legal ways
+    for text, trip in [("7:0-10", ("7", 0, 10)), ("7", ("7", None, None)), ("7:0.005k-", ("7", 5, None)), ("chr-2.x:0.03K-0.033k", ("chr-2.x", 30, 33)),
+                       (" a b : 5 - 15 ", ("a b", 5, 15)), ("a b:20-", ("a b", 20, None)), ("a b:21-", ("a b", 21, None)), ("chr1:50-50", ("chr1", 50, 50)),
+                       ("chr1:0-0", ("chr1", 0, 0)), ("chr1:0,050-", ("chr1", 50, None)), ("chr1:00-0050", ("chr1", 0, 50))]:
+        cases.append(("str", trip, text))
+    for how, (nm, s, e), text in cases:
+        case = {"fn": "callers(region form)", "region": [nm, s, e], "region_type": how, "text": text}
+        tally.add(f"{nm}|{s}|{e}|{how}|{text}", True)
+        detail = env.verdict(region_from_case(case), (nm, s, e))
+        if detail is not None:
+            ctx.fail(case, detail, None)
+    for k in range(len(TWO_REGION_CASES)):
+        case = {"fn": "callers(two regions)", "k": k, "repr": repr(TWO_REGION_CASES[k][:2])}
+        tally.add(case["repr"], True)
+        if not env.two_region_ok(k):
+            ctx.fail(case, {"expected_shape": list(TWO_REGION_CASES[k][2])}, None)
+    # ---- URI spellings through the callers
+    uenv = UriEnv(ctx, env.bins)
+    if uenv.setup[0] != "ok":
+        ctx.broke(f"glue-forms stream: create_cooler with a 'file::group' URI failed with {uenv.setup[0]}")
+    else:
+        for k, (suffix, root) in enumerate(URI_OPEN_CASES):
+            case = {"fn": "callers(uri)", "k": k, "uri_suffix": suffix, "root": root}
+            tally.add(suffix + "|open", True)
+            if not uenv.open_ok(k):
+                ctx.fail(case, {"expected": root if root is not None else "ValueError (two separators)"}, None)
+        tally.add("list_coolers", True)
+        if not uenv.listing_ok():
+            ctx.fail({"fn": "callers(uri)", "k": -1, "uri_suffix": "list_coolers", "root": None}, {"expected": ["/", "/grp/x"]}, None)
+    tally.flush()
+    return tally.n
+
+
 # ------------------------------------------------------------------ entry points
 def run(ctx):
     thorough = ctx.tier == "thorough"
     old = signal.signal(signal.SIGALRM, _alarm)
     counts, times = {}, {}
     try:
-        for name, fn, limit in [("corpus", stream_corpus, 300), ("uri", stream_uri, 300), ("bounds", stream_bounds, 300), ("glue", stream_glue, 300),
+        for name, fn, limit in [("corpus", stream_corpus, 300), ("uri", stream_uri, 300), ("bounds", stream_bounds, 300), ("forms", stream_forms, 300), ("glue", stream_glue, 300), ("glue-forms", stream_glue_forms, 600),
                                 ("product", stream_product, 600), ("numerals", stream_numerals, 900), ("alpha", stream_alpha, 900)]:
             signal.alarm(limit)
             t0 = time.time()
@@ -876,10 +1192,29 @@ def replay(ctx, case):
         if cs is not None and case.get("container") == "series":
             import pandas as pd
             arg = pd.Series(cs, dtype="int64")
-        impl = guarded(util.parse_region, case["s"], arg)
-        if impl[0] == "ok":
-            impl = ("ok", (impl[1][0], int(impl[1][1]), int(impl[1][2])))
+        elif cs is not None and case.get("container") in dict(containers(cs)):
+            arg = dict(containers(cs))[case["container"]]
+        impl = norm_triple(guarded(util.parse_region, case["s"], arg))
         return oracle_parse_region(case["s"], cs, impl)
+    if fn == "parse_region(tuple)" and "region_type" in case:
+        impl, exp = tuple_case_run(case)
+        return impl == exp
+    if fn == "parse_region(arity)":
+        return arity_case_ok(case)
+    if fn == "parse_cooler_uri(non-str)":
+        return nonstr_uri_case_ok(case)
+    if fn in ("callers(region form)", "callers(two regions)", "callers(uri)"):
+        env = CallersEnv(ctx)
+        if env.setup[0] != "ok":
+            return False
+        if fn == "callers(region form)":
+            return env.verdict(region_from_case(case), tuple(case["region"])) is None
+        if fn == "callers(two regions)":
+            return env.two_region_ok(case["k"])
+        uenv = UriEnv(ctx, env.bins)
+        if uenv.setup[0] != "ok":
+            return False
+        return uenv.listing_ok() if case["k"] < 0 else uenv.open_ok(case["k"])
     if fn == "parse_region(tuple)":
         nm, s, e = case["region"]
         cs = case["chromsizes"]
